@@ -76,6 +76,27 @@ func joinKExec(s core.Spec) core.Exec {
 	return core.Exec{Tape: tape, Tags: tags, Nontrivial: total > 0}
 }
 
+// index of the first call that returns an error (-1: none within the sizes given, or a panic)
+func joinKFirstError(sp *JoinKSpec) (idx int) {
+	var chunks [][]byte
+	for _, c := range sp.Chunks {
+		chunks = append(chunks, c)
+	}
+	defer func() {
+		if recover() != nil {
+			idx = -1
+		}
+	}()
+	c := websocket.VerifNewConn(NewScriptConn(chunks, sp.Fault, sp.Glued), sp.Server, sp.RBuf, 0, nil, nil, false)
+	r := websocket.JoinMessages(c, string(sp.Term))
+	for i, m := range sp.Sizes {
+		if _, err := r.Read(make([]byte, m)); err != nil {
+			return i
+		}
+	}
+	return -1
+}
+
 func c03kGen(rng *rand.Rand, tier string) []core.Spec {
 	n := 500
 	if tier == "thorough" {
@@ -89,17 +110,16 @@ func c03kGen(rng *rand.Rand, tier string) []core.Spec {
 		sp := &JoinKSpec{Server: server, RBuf: core.Pick(rng, rbufChoices), Chunks: chunkStream(rng, stream, bounds),
 			Fault: core.Pick(rng, []int{0, 0, 1, 2}), Glued: rng.Intn(3) == 0,
 			Term: B(core.Pick(rng, []string{"", "", "\n", "--", "\r\n\r\n"}))}
-		// enough calls to reach the end with the smallest size drawn, and a few past the first error
+		// the sizes of the calls: drawn until the joined reader reports its first error on this
+		// tree (a dry run), plus a few calls past it
 		sizes := core.Pick(rng, [][]int{{1}, {7}, {1, 7, 64}, {512}, {200, 5000}, {8192}, {0, 3, 600}})
-		budget := len(stream) + 8*len(frames) + 20
-		for k := 0; k < 4000 && budget > 0; k++ {
-			m := sizes[rng.Intn(len(sizes))]
-			sp.Sizes = append(sp.Sizes, m)
-			if m == 0 {
-				budget--
-			} else {
-				budget -= m
-			}
+		for k := 0; k < 20000; k++ {
+			sp.Sizes = append(sp.Sizes, sizes[rng.Intn(len(sizes))])
+		}
+		if k := joinKFirstError(sp); k >= 0 {
+			sp.Sizes = sp.Sizes[:k+1]
+		} else {
+			sp.Sizes = sp.Sizes[:2000]
 		}
 		for k := 0; k < 3+rng.Intn(4); k++ {
 			sp.Sizes = append(sp.Sizes, sizes[rng.Intn(len(sizes))])
